@@ -17,6 +17,7 @@ import MysyncModel.Replay.C04
 import MysyncModel.Replay.C01
 import MysyncModel.Replay.C11
 import MysyncModel.Replay.C19
+import MysyncModel.Replay.C10
 
 open Lean Replay
 
@@ -36,7 +37,8 @@ def handlers : List (String × Handler) := [
   ("c04", Replay.C04.handle),
   ("c01", Replay.C01.handle),
   ("c11", Replay.C11.handle),
-  ("c19sync", Replay.C19.handle)
+  ("c19sync", Replay.C19.handle),
+  ("c10pass", Replay.C10.handle)
 ]
 
 partial def loop (h : IO.FS.Stream) (seen : Std.HashSet UInt64) (a : Acc) : IO Acc := do
